@@ -397,7 +397,8 @@ class Ctx:
         if self.mode == 'sym':
             for f in funcs:
                 f = getattr(f, '__func__', f)
-                self.I.force.add(f.__code__)
+                if hasattr(f, '__code__'):      # closures created while interpreting are interpreted anyway
+                    self.I.force.add(f.__code__)
 
     def cleanup(self):
         for owner, name, orig in reversed(getattr(self, '_patched', [])):
